@@ -196,6 +196,11 @@ func newOperator(expr parser.Expr, storage *engstore.SelectorPool, opts *query.O
 		return exchange.NewConcurrent(next, 2), nil
 
 	case *parser.BinaryExpr:
+		// Same as the Prometheus engine: selectors below a binary expression
+		// carry neither a function nor a grouping hint.
+		hints.Func = ""
+		hints.Grouping = nil
+		hints.By = false
 		if e.LHS.Type() == parser.ValueTypeScalar || e.RHS.Type() == parser.ValueTypeScalar {
 			return newScalarBinaryOperator(e, storage, opts, hints)
 		}
@@ -203,6 +208,9 @@ func newOperator(expr parser.Expr, storage *engstore.SelectorPool, opts *query.O
 		return newVectorBinaryOperator(e, storage, opts, hints)
 
 	case *parser.ParenExpr:
+		// The grouping hint only applies to the direct operand of an aggregation.
+		hints.Grouping = nil
+		hints.By = false
 		return newOperator(e.Expr, storage, opts, hints)
 
 	case *parser.StringLiteral:
@@ -210,6 +218,8 @@ func newOperator(expr parser.Expr, storage *engstore.SelectorPool, opts *query.O
 		return nil, errors.Wrapf(parse.ErrNotImplemented, "got: %s", e)
 
 	case *parser.UnaryExpr:
+		hints.Grouping = nil
+		hints.By = false
 		next, err := newOperator(e.Expr, storage, opts, hints)
 		if err != nil {
 			return nil, err
